@@ -545,6 +545,7 @@ func (f *dataFamily) WriteRows(rows []*metric.StorageRow) error {
 		f.statistics.WriteMetricFailures.Add(float64(len(rows)))
 		return err
 	}
+	verifGate("writerows.gotdb")
 	db.AcquireWrite()
 	defer func() {
 		f.statistics.WriteBatches.Incr()
